@@ -218,28 +218,6 @@ Proof.
 Qed.
 
 (* ------------------------------------------------------------------ *)
-(* sort comparator                                                     *)
-(* ------------------------------------------------------------------ *)
-Lemma sort_compare_panic_iff fp lt rt lv rv :
-  (exists s, sort_compare_numeric fp lt rt lv rv = Panic s) <-> ~ sort_guard fp lt rt lv rv.
-Proof.
-  unfold sort_compare_numeric, sort_guard.
-  destruct lt, rt; try (split; [intros [s Hs]; discriminate | intros H; exfalso; apply H; exact I]).
-  - destruct (parse_int64 lv), (parse_int64 rv); split;
-      try (intros [s Hs]; discriminate); try (intros H; exfalso; apply H; split; discriminate);
-      try (intros _ [H1 H2]; congruence); intros _; eexists; reflexivity.
-  - destruct (fp lv), (fp rv); split;
-      try (intros [s Hs]; discriminate); try (intros H; exfalso; apply H; split; reflexivity);
-      try (intros _ [H1 H2]; congruence); intros _; eexists; reflexivity.
-  - destruct (fp lv), (fp rv); split;
-      try (intros [s Hs]; discriminate); try (intros H; exfalso; apply H; split; reflexivity);
-      try (intros _ [H1 H2]; congruence); intros _; eexists; reflexivity.
-  - destruct (fp lv), (fp rv); split;
-      try (intros [s Hs]; discriminate); try (intros H; exfalso; apply H; split; reflexivity);
-      try (intros _ [H1 H2]; congruence); intros _; eexists; reflexivity.
-Qed.
-
-(* ------------------------------------------------------------------ *)
 (* repeat                                                              *)
 (* ------------------------------------------------------------------ *)
 Lemma repeat_panic_iff mem slen count :
@@ -465,7 +443,3 @@ Qed.
 Lemma pad_count_Z len index :
   Z.of_nat (pad_count len index) = Z.max 0 (index + 1 - len).
 Proof. unfold pad_count. lia. Qed.
-
-Lemma sort_float_site_reachable (fp : str -> bool) v :
-  fp v = false -> sort_compare_numeric fp TInt TFloat v v = Panic SortParseFloat.
-Proof. intros H. unfold sort_compare_numeric. rewrite H. reflexivity. Qed.
